@@ -556,8 +556,12 @@ func (c Component) Hash() uint64 {
 
 // HashInto hashes the current component into the hasher
 func (c Component) HashInto(h hash.Hash) {
-	tbuf := []byte{0, 0, 0, 0, 0, 0, 0, 0}
+	// Type and length delimit the value, so that a sequence of components is hashed
+	// injectively (a component whose value contains the bytes of a type number must
+	// not hash like two components).
+	tbuf := []byte{0, 0, 0, 0, 0, 0, 0, 0, 0, 0, 0, 0, 0, 0, 0, 0}
 	binary.BigEndian.PutUint64(tbuf, uint64(c.Typ))
+	binary.BigEndian.PutUint64(tbuf[8:], uint64(len(c.Val)))
 	h.Write(tbuf)
 	h.Write(c.Val)
 }
